@@ -179,9 +179,11 @@ void run_case(Choices &c, Ctx &ctx)
 		}
 		if (t.find('.') == std::string::npos)
 			t += form & 1 ? ".0" : "e0";
+		if (neg)
+			t = "-" + t;
 		if (form & 2)
 			t = "[" + t + "]";
-		enum_case(ctx, (neg ? "-" : "") + t, idx);
+		enum_case(ctx, t, idx);
 		leak.check(ctx);
 		return;
 	}
